@@ -282,6 +282,15 @@ def midpoint_subdivide(V, F):
     return V, F2
 
 
+def planar_embedded(V, F):
+    """all triangles of a mesh in the plane z=0 have the same (non-zero) signed area: no fold-over"""
+    sg = set()
+    for a, b, c in F:
+        ar = (V[b][0] - V[a][0]) * (V[c][1] - V[a][1]) - (V[b][1] - V[a][1]) * (V[c][0] - V[a][0])
+        sg.add(ar > 0)
+    return len(sg) == 1 and all(abs(v[2]) == 0 for v in V)
+
+
 def angles_ok(V, F):
     return G.min_angle_deg(V, F) >= 8.0 and G.max_angle_deg(V, F) <= 170.0
 
@@ -305,7 +314,7 @@ def tri_case(draw):
         else:
             s = draw(G.well_shaped_trisurf(max_faces=80, bordered=True, open_bases=("grid", "fan_closed", "fan_open", "strip", "polygon")))
             s = dict(s, V=[[v[0], v[1], 0.0] for v in s["V"]])
-        if not angles_ok(s["V"], s["F"]) or any(abs(v[2]) > 0 for v in s["V"]):
+        if not angles_ok(s["V"], s["F"]) or not planar_embedded(s["V"], s["F"]):
             V0, F0 = G.op_triangulate_all(*G.grid(2, 3), 0)
             s = {"V": [[float(v[0]), float(v[1]), 0.0] for v in V0], "F": [list(f) for f in F0], "tags": ["base=grid-fallback"] + G.tags_of(V0, F0)}
     V, F, tags = [list(map(float, v)) for v in s["V"]], [list(map(int, f)) for f in s["F"]], list(s["tags"])
@@ -341,7 +350,7 @@ def tri_case(draw):
             "conn": draw(st.sampled_from(["faces", "flat"])) if planar else "faces",
             "vconn": draw(st.sampled_from([True, False, False])), "order": draw(st.sampled_from([1, 2, 4])),
             "wseed": draw(st.integers(0, 10 ** 6)), "fmt": draw(st.sampled_from(FORMATS)),
-            "group_seed": draw(st.integers(0, 10 ** 6))}
+            "sort": draw(st.sampled_from([True, True, False])), "group_seed": draw(st.integers(0, 10 ** 6))}
 
 
 def fn_surface(case, ctx):
@@ -355,6 +364,8 @@ def fn_surface(case, ctx):
         raise AssertionError("invalid generated case: " + str(err))
     if not angles_ok(V, F):
         raise AssertionError("generated surface is not well shaped")
+    if case["conn"] == "flat" and not planar_embedded(V, F):
+        raise AssertionError("flat connection requested on a mesh that is not embedded in the plane z=0")
     for t in case.get("tags", []):
         if t.startswith(("base=", "scale=")) or t in ("closed", "bordered", "subdivided", "orientation-reversed", "moved",
                                                       "isolated-last-vertex", "height", "ear-removed", "relabelled"):
@@ -377,6 +388,8 @@ def fn_surface(case, ctx):
     K = R.stiffness(Vn, F)
     scale = float(np.max(np.abs(Vn - Vn.mean(axis=0)))) or 1.0
 
+    M.config.sort_neighborhoods = bool(case.get("sort", True))      # restored by the runner after the case
+    ctx.label("sort=" + str(bool(case.get("sort", True))))
     m = surface_from(V, F)
     if case["pre"] == "angles":
         ok, _ = ctx.call("corner_angles", M.attributes.corner_angles, m)
@@ -577,6 +590,18 @@ def fn_surface(case, ctx):
                 check_sym_rowsum(ctx, sig, D, "connection Laplacian", hermitian=True)
                 ctx.check(relclose(np.abs(D), np.abs(K), 1e-8), sig + ":modulus", "|connection Laplacian| != |cotan Laplacian| entrywise " + worst(np.abs(D), np.abs(K)))
                 ctx.check(relclose(np.diag(D), np.diag(K).astype(complex), 1e-8), sig + ":diagonal", "diagonal of the connection Laplacian != diagonal of the cotan Laplacian")
+        sig = f"laplacian[uniform,connection,order={order}]"
+        ok, Lc = ctx.call(sig, M.operators.laplacian, m2, False, vc, order)
+        if ok:
+            D = todense(ctx, sig, Lc, (nV, nV), "laplacian(cotan=False, connection=...)")
+            if D is not None:
+                U = np.zeros((nV, nV))
+                for f in F:
+                    for i in range(3):
+                        a, b = f[i], f[(i + 1) % 3]
+                        U[a, b] += 0.5; U[b, a] += 0.5; U[a, a] += 0.5; U[b, b] += 0.5
+                check_sym_rowsum(ctx, sig, D, "uniform connection Laplacian", hermitian=True)
+                ctx.check(relclose(np.abs(D), U, 1e-8), sig + ":modulus", "|uniform connection Laplacian| != (#incident faces)/2 entrywise " + worst(np.abs(D), U))
 
 
 # ============================================================================================ tetrahedral meshes
@@ -630,6 +655,22 @@ def fn_volume(case, ctx):
         check_sym_rowsum(ctx, "volume_laplacian", D, "volume_laplacian")
         pat = graph_reference(nV, medges) + np.eye(nV)
         ctx.check(not np.any((np.abs(D) > 0) & (pat == 0)), "volume_laplacian:pattern", "volume_laplacian couples vertices that share no edge")
+        # the docstring's reference [2] (n-D cotan formula) IS the P1 stiffness matrix.  The code takes |cot| of every dihedral angle,
+        # so equality is only asserted where that is harmless: all dihedral angles <= 90 degrees.
+        nonobtuse = True
+        for c in C:
+            g, _ = R.simplex_grads(Vn[list(c)])
+            nrm = np.linalg.norm(g, axis=1)
+            cosm = (g @ g.T) / np.outer(nrm, nrm)
+            np.fill_diagonal(cosm, -1.0)
+            if np.max(cosm) > 1e-9:
+                nonobtuse = False
+                break
+        if nonobtuse:
+            ctx.label("all-dihedral<=90")
+            Kt = R.stiffness(Vn, C)
+            ctx.check(relclose(D, Kt, 1e-8), "volume_laplacian:stiffness-nonobtuse",
+                      "all dihedral angles <= 90 deg but volume_laplacian != P1 stiffness matrix (n-D cotan formula) " + worst(D, Kt))
 
     def g_tlap():
         ok, L = ctx.call("laplacian_tetrahedra", M.operators.laplacian_tetrahedra, m)
@@ -668,7 +709,7 @@ def fn_volume(case, ctx):
 
 @st.composite
 def graph_case(draw):
-    kind = draw(st.sampled_from(["path", "cycle", "tree", "graph", "graph", "union", "empty"]))
+    kind = draw(st.sampled_from(["path", "cycle", "tree", "graph", "graph", "graph", "union", "union", "empty"]))
 
     def one(n, kind):
         if kind == "path":
@@ -679,11 +720,11 @@ def graph_case(draw):
             return [(draw(st.integers(0, i - 1)), i) for i in range(1, n)]
         if kind == "graph":
             pairs = [(i, j) for i in range(n) for j in range(i)]
-            return draw(st.lists(st.sampled_from(pairs), unique=True, max_size=24)) if pairs else []
+            return draw(st.lists(st.sampled_from(pairs), unique=True, min_size=min(2, len(pairs)), max_size=24)) if pairs else []
         return []
-    n = draw(st.integers(1, 14))
+    n = draw(st.sampled_from([1, 2, 3, 4, 5, 6, 7, 8, 9, 10, 11, 12, 13, 14]))
     if kind == "union":
-        n2 = draw(st.integers(1, 8))
+        n2 = draw(st.sampled_from([1, 2, 3, 4, 5, 6, 7, 8]))
         E = one(n, draw(st.sampled_from(["path", "cycle", "tree", "graph"])))
         E += [(a + n, b + n) for a, b in one(n2, draw(st.sampled_from(["path", "cycle", "tree", "graph"])))]
         n += n2
@@ -755,10 +796,10 @@ def self_test():
 
 
 SUBCHECKS = [
-    SubCheck("surface_operators", tri_case(), fn_surface, quick=240, thorough=900),
-    SubCheck("volume_operators", tet_case(), fn_volume, quick=120, thorough=500),
-    SubCheck("graph_operators", graph_case(), fn_graph, quick=300, thorough=1500),
-    SubCheck("polygon_graph_operators", polygon_case(), fn_polygon, quick=150, thorough=700),
+    SubCheck("surface_operators", tri_case(), fn_surface, quick=3000, thorough=5000),
+    SubCheck("volume_operators", tet_case(), fn_volume, quick=1500, thorough=3000),
+    SubCheck("graph_operators", graph_case(), fn_graph, quick=3000, thorough=6000),
+    SubCheck("polygon_graph_operators", polygon_case(), fn_polygon, quick=1500, thorough=3000),
 ]
 
 MATCHERS = {}
